@@ -26,10 +26,44 @@ const HangGuard = 20 * time.Second
 
 // In is the replayable input: the bytes, the ReaderAt end-of-input convention, and which entry point reads them.
 type In struct {
-	Hex  string
+	Hex  string // the input bytes (empty when Rep is set)
 	Conv int    // 0: bytes.Reader; 1: a full read ending exactly at end of input returns (n, io.EOF)
 	Via  string // "ar": LoadAr + Next driven by the harness; "load": deb.Load
 	Desc string `json:",omitempty"` // how the generator derived the bytes (informational only)
+	// Rep, when set, describes a LARGE input compactly: Prefix + Count x Unit + Suffix (hex each).
+	Rep *RepSpec `json:",omitempty"`
+}
+
+// RepSpec is a run-length description of a large input (MiB of filler, 100 000 members).
+type RepSpec struct {
+	Prefix, Unit, Suffix string
+	Count                int
+}
+
+// Bytes materialises the input.
+func (in In) Bytes() ([]byte, error) {
+	if in.Rep == nil {
+		return hex.DecodeString(in.Hex)
+	}
+	p, e1 := hex.DecodeString(in.Rep.Prefix)
+	u, e2 := hex.DecodeString(in.Rep.Unit)
+	x, e3 := hex.DecodeString(in.Rep.Suffix)
+	if e1 != nil || e2 != nil || e3 != nil || in.Rep.Count < 0 || int64(in.Rep.Count)*int64(len(u)) > 1<<30 {
+		return nil, fmt.Errorf("bad Rep")
+	}
+	b := make([]byte, 0, len(p)+in.Rep.Count*len(u)+len(x))
+	b = append(b, p...)
+	if len(u) == 1 {
+		b = b[:len(p)+in.Rep.Count]
+		for i := len(p); i < len(b); i++ {
+			b[i] = u[0]
+		}
+	} else {
+		for i := 0; i < in.Rep.Count; i++ {
+			b = append(b, u...)
+		}
+	}
+	return append(b, x...), nil
 }
 
 // ---- input-side description (features): a strict reference walk over the bytes, independent of the library ----
@@ -370,8 +404,12 @@ func eval(b []byte, conv int, via string) ([]finding, string) {
 }
 
 func violations(scen string, b []byte, conv int, via, desc string, fs []finding) []*mc.Violation {
+	return violationsIn(scen, In{Hex: hex.EncodeToString(b), Conv: conv, Via: via, Desc: desc}, b, fs)
+}
+
+func violationsIn(scen string, in In, b []byte, fs []finding) []*mc.Violation {
 	var out []*mc.Violation
-	in := In{Hex: hex.EncodeToString(b), Conv: conv, Via: via, Desc: desc}
+	conv := in.Conv
 	for _, f := range fs {
 		out = append(out, mc.V(scen, f.clause, in, f.want, f.got, features(b, conv)...))
 	}
@@ -380,16 +418,15 @@ func violations(scen string, b []byte, conv int, via, desc string, fs []finding)
 
 // check is the oracle for one input.
 func check(scen string, in In) []*mc.Violation {
-	b, err := hex.DecodeString(in.Hex)
+	b, err := in.Bytes()
 	if err != nil {
 		return nil
 	}
-	via := in.Via
-	if via != "load" {
-		via = "ar"
+	if in.Via != "load" {
+		in.Via = "ar"
 	}
-	fs, _ := eval(b, in.Conv, via)
-	return violations(scen, b, in.Conv, via, in.Desc, fs)
+	fs, _ := eval(b, in.Conv, in.Via)
+	return violationsIn(scen, in, b, fs)
 }
 
 func Replay(scenario string, raw json.RawMessage) []*mc.Violation {
@@ -399,7 +436,7 @@ func Replay(scenario string, raw json.RawMessage) []*mc.Violation {
 	}
 	// a fatal runtime error would take the replaying process with it: probe in a process of its own first
 	if died, how := probeOne(in); died {
-		b, _ := hex.DecodeString(in.Hex)
+		b, _ := in.Bytes()
 		return []*mc.Violation{mc.V(scenario, "no-panic", in, "no panic (and no fatal runtime error)", "the process executing this input died: "+how, features(b, in.Conv)...)}
 	}
 	return check(scenario, in)
